@@ -4,45 +4,53 @@ C12 — the peer graph's lookups always agree with its membership (ipv8/peerdisc
 Link to the code:
   * translator tools/gen_c12.py regenerates lean/Ipv8/C12/Gen.lean (address type bytes of the snapshot codec,
     Peer.INTERFACE_ORDER, default cache caps) from the working tree on every run;
-  * correspondence: seeded op sequences (mutators, queries with their LRU side effects, tiny cache caps, snapshots) are
-    executed on a real `Network` with real `Peer` objects and, line by line, on the Lean model (driver drv_c12);
-    answers are compared as sorted sets; which peer `get_verified_by_address` picks among several on one address is
-    passed to the model as a hint and checked there for legality;
+  * correspondence: seeded op sequences (mutators, in-place updates of stored Peer objects, queries with their LRU side
+    effects, tiny cache caps, snapshots) are executed on a real `Network` with real `Peer` objects and, line by line, on
+    the Lean model (driver drv_c12); list answers are compared as sorted MULTISETS (duplicates count); which peer
+    `get_verified_by_address` picks among several on one address is passed to the model as a hint that is followed only
+    if it is a legal answer;
   * oracle (independent of the Lean model): a cache-free reference graph (`Spec`, below) is driven by the same lines;
-    every query answer of the real code must be what the reference graph implies, returned Peer objects must be the
-    objects held in `verified_peers`, and no query may change the graph.
+    every query answer of the real code must be what the reference graph implies (no duplicates), returned Peer objects
+    must be the objects held in `verified_peers`, no query may change the graph, the caches must stay within their caps.
 """
 from __future__ import annotations
 
 import itertools
+import signal
 import socket
 
 import gen_c12
-from vlib import Ctx
+from vlib import Ctx, InfraError
 
 PROPERTY = "C12"
 LEAN_TARGETS = ["Ipv8.C12.Props"]
 PROPS_FILE = "Ipv8/C12/Props.lean"
 DRIVER = "drv_c12"
-RULE = ("op sequences over a pool of 3-5 keys x (4 IPv4 + 3 IPv6 + 2 host-name addresses + 0.0.0.0:0) x 3 services: "
-        "add_verified_peer / discover_address / discover_services / remove_peer (canonical object or a fresh one) / "
-        "remove_by_address / blacklist appends / load_snapshot, interleaved with all get_* queries and snapshot, cache "
-        "caps drawn from {1,2,3,500}; random sequences of length 10..200 plus exhaustive enumeration of all sequences "
-        "over a 20 op alphabet to depth 3 (quick) / 4 (thorough) and over a 10 op alphabet to depth 5 (thorough), each "
-        "followed by a sweep of 14 queries and a second sweep of 8 (asking again); a scripted corpus of 15 shapes; distinct = "
-        "distinct op-line sequence; non-trivial = contains a query after a removal/address update/service change "
-        "that follows an earlier query (the stale-cache shape)")
+RULE = ("op sequences over a pool of 3-5 keys x (4 IPv4 + 3 IPv6 + 2 host-name addresses + 0.0.0.0:0) x 5 address "
+        "classes (UDPv4Address, UDPv6Address, tuple, UDPv4LANAddress, DomainAddress; constructor address or add_address) x "
+        "services s1-s3 and the empty service id: add_verified_peer / discover_address / discover_services with fresh Peer "
+        "objects or with the stored object, in-place add_address on the stored object, remove_peer (stored object or a "
+        "fresh one), remove_by_address, blacklist appends, load_snapshot (valid, truncated, corrupted, UTF-8 host names), "
+        "interleaved with all get_* queries and snapshot; cache caps from {1,2,3,500}. Random sequences of length 10..200 "
+        "are steered by a reference graph so that removals, updates and lookups mostly hit existing peers/addresses; "
+        "exhaustive enumeration of all sequences over a 20 op alphabet (3 keys, 3 addresses, 2 services; caps 1/1/1) to "
+        "depth 3 (quick) / 4 (thorough) and over a 10 op sub-alphabet to depth 5 (thorough), each followed by a sweep of "
+        "14 queries and a second sweep of 8; a scripted corpus. distinct = distinct op-line sequence; non-trivial = "
+        "contains a query after a removal/address update/service change that follows an earlier query (stale-cache shape). "
+        "NOTE: the design promised exhaustive depth 6 over 3 peers; that is not delivered (cost), see design.d/C12.md")
 TRUSTED_BASE = [
     "tools/gen_c12.py: reads ADDRESS_TYPE_* constants, the struct formats of Address.pack/unpack (AST), Peer.INTERFACE_ORDER and the three cache caps",
-    "hand-written model of every Network mutator/query incl. LRU side effects (Ipv8/C12/Model.lean), tied by the correspondence run",
-    "object identity of Peer instances is abstracted in the model (one record per key, a generation number where the code tests `is`); the harness checks identity on the real objects",
-    "PeerObserver callbacks are checked by the oracle only (exactly one on_peer_added/on_peer_removed per key entering/leaving the membership); they are not in the Lean model",
-    "socket.inet_pton/inet_ntop and the UTF-8 codec (text form <-> bytes of an address) are outside the model",
+    "hand-written model of every Network mutator/query incl. LRU side effects (Ipv8/C12/Model.lean), tied by the correspondence run; cache ORDER/eviction policy is tied only through answers and the cap bound",
+    "the Python reference graph `Spec` (harness/c12.py) and the Lean `Graph.step` are transcriptions of what the code's mutators do to the membership (without index and caches), not an independent specification of the mutators; what is independent is the meaning of each lookup",
+    "object identity of Peer instances is modelled as generation numbers (index, set, address cache); the service cache is by key; the harness checks identity on the real objects",
+    "PeerObserver callbacks are checked by the oracle only; they are not in the Lean model",
+    "socket.inet_pton/inet_ntop (text form <-> bytes of an address) are outside the model",
 ]
 ASSUMPTIONS = [
     "Peer.mid (SHA-1 of the key) is injective on the keys in use; the model identifies a mid with its key",
-    "addresses are in canonical text form (inet_ntop output), ports < 65536, host names < 65536 bytes and not parseable as IP",
-    "callers do not mutate Peer.addresses of a stored peer behind the Network's back and only append to the blacklists",
+    "addresses are in canonical text form (inet_ntop output; a non-canonical IPv6 text does not survive snapshot/load in the code), ports < 65536, host names < 65536 bytes and not parseable as IP",
+    "callers mutate a stored Peer only through Peer.add_address on the object they got from the index (modelled as an op) and only append to the blacklists; a Peer object that was removed is not passed in again",
+    "cache caps are set before the first operation and not lowered afterwards",
     "single-threaded use (graph_lock not modelled)",
 ]
 
@@ -62,6 +70,7 @@ DOM = ["0.%s.%d" % (("node%d.example.org" % i).encode().hex(), 5000 + i) for i i
 ZERO = "4.00000000.0"
 POOL = V4 + V6 + DOM + [ZERO]
 SVCS = ["s1", "s2", "s3"]
+NSLOTS = 5          # 0 UDPv4Address, 1 UDPv6Address, 2 tuple, 3 UDPv4LANAddress, 4 DomainAddress
 
 
 def generate(ctx: Ctx):
@@ -94,18 +103,28 @@ def addr_token(value) -> str:
 
 
 def parse_peer(tok: str):
-    """'p1:0=<addr>,2=<addr>' -> (1, {0: addrtok, 2: addrtok})"""
-    k, rest = tok.split(":", 1)
+    """'[@]p1:[^]0=<addr>,2=<addr>' -> (1, {0: addrtok, 2: addrtok})"""
+    k, rest = tok.lstrip("@").split(":", 1)
     slots = {}
-    if rest != "-":
+    if rest not in ("-", "*"):
         for item in rest.split(","):
-            s, a = item.split("=")
+            s, a = item.lstrip("^").split("=")
             slots[int(s)] = a
     return int(k[1:]), slots
 
 
-def peer_token(k: int, slots: dict) -> str:
-    return "p%d:%s" % (k, ",".join("%d=%s" % (s, slots[s]) for s in sorted(slots)) or "-")
+def peer_ctor(tok: str):
+    """address token passed to the Peer constructor ('^' item), or None"""
+    rest = tok.split(":", 1)[1]
+    for item in rest.split(","):
+        if item.startswith("^"):
+            return item.split("=")[1]
+    return None
+
+
+def peer_token(k: int, slots: dict, ctor_slot=None, stored=False) -> str:
+    items = ",".join(("^" if s == ctor_slot else "") + "%d=%s" % (s, slots[s]) for s in sorted(slots))
+    return ("@" if stored else "") + "p%d:%s" % (k, items or "-")
 
 
 def show_peer(k: int, slots: dict) -> str:
@@ -113,11 +132,16 @@ def show_peer(k: int, slots: dict) -> str:
 
 
 def show_list(items) -> str:
-    return "[" + ",".join(sorted(set(items))) + "]"
+    """sorted, duplicates kept"""
+    return "[" + ",".join(sorted(items)) + "]"
 
 
 def svc_bytes(tok: str) -> bytes:
-    return tok.encode() * 10
+    return b"" if tok == "s0" else tok.encode() * 10
+
+
+def svc_show(b: bytes) -> str:
+    return "s0" if not b else b[:2].decode()
 
 
 class World:
@@ -127,22 +151,32 @@ class World:
         import logging
         logging.getLogger("ipv8.peerdiscovery.network").disabled = True
         from ipv8.keyvault.crypto import default_eccrypto
-        from ipv8.messaging.interfaces.udp.endpoint import UDPv4Address, UDPv6Address
+        from ipv8.messaging.interfaces.udp.endpoint import DomainAddress, UDPv4Address, UDPv4LANAddress, UDPv6Address
         from ipv8.peer import Peer
         from ipv8.peerdiscovery.network import Network
         self.Peer, self.Network = Peer, Network
         self.keys = [default_eccrypto.key_from_public_bin(bytes.fromhex(h)) for h in KEYS_HEX]
         self.key_bins = [k.key_to_bin() for k in self.keys]
         self.key_index = {kb: i for i, kb in enumerate(self.key_bins)}
-        self.slot_cls = {0: UDPv4Address, 1: UDPv6Address, 2: tuple}
+        self.slot_cls = {0: UDPv4Address, 1: UDPv6Address, 2: tuple, 3: UDPv4LANAddress, 4: DomainAddress}
         self.cls_slot = {v: k for k, v in self.slot_cls.items()}
         self.mids = [Peer(k).mid for k in self.keys]
+        # Peer.address prefers the classes of INTERFACE_ORDER in that order (read from the tree, not hard-coded)
+        self.order = tuple(self.cls_slot[c] for c in Peer.INTERFACE_ORDER if c in self.cls_slot)
 
-    def make_peer(self, k: int, slots: dict):
-        p = self.Peer(self.keys[k])
+    def addr_obj(self, slot: int, tok: str):
+        v = addr_value(tok)
+        return tuple(v) if slot == 2 else self.slot_cls[slot](*v)
+
+    def make_peer(self, k: int, slots: dict, ctor=None):
+        ctor_slot = next((s for s in sorted(slots) if slots[s] == ctor), None) if ctor is not None else None
+        if ctor_slot is not None:
+            p = self.Peer(self.keys[k], self.addr_obj(ctor_slot, slots[ctor_slot]))
+        else:
+            p = self.Peer(self.keys[k])
         for s in sorted(slots):
-            v = addr_value(slots[s])
-            p.add_address(self.slot_cls[s](*v) if s != 2 else tuple(v))
+            if s != ctor_slot:
+                p.add_address(self.addr_obj(s, slots[s]))
         return p
 
     def peer_slots(self, peer) -> dict:
@@ -163,10 +197,10 @@ def world() -> World:
 
 
 # ---------------------------------------------------------------------------------------------------------------
-# reference graph: what the set of verified peers, their addresses and advertised services imply (no caches, no
-# indices).  Written from the documented meaning of each mutator; independent of the Lean model.
+# the documented snapshot format (doc/reference/serialization.rst: address = type byte 1/2/3 + host + port), written
+# independently of serialization.py
 def snapshot_chunks(data: bytes):
-    """split a snapshot into per-address chunks (independent re-implementation of the documented codec)"""
+    """split into per-address chunks; stops at the first entry that cannot be decoded (load_snapshot aborts there)"""
     out, off = [], 0
     while off < len(data):
         t = data[off]
@@ -177,7 +211,12 @@ def snapshot_chunks(data: bytes):
         elif t == 2:
             if off + 3 > len(data):
                 break
-            n = 5 + int.from_bytes(data[off + 1:off + 3], "big")
+            hl = int.from_bytes(data[off + 1:off + 3], "big")
+            n = 5 + hl
+            try:
+                data[off + 3:off + 3 + hl].decode()
+            except UnicodeDecodeError:
+                break
         else:
             break
         if off + n > len(data):
@@ -208,17 +247,32 @@ def addr_chunk(tok: str) -> bytes:
     return b"\x02" + len(raw).to_bytes(2, "big") + raw + p
 
 
-class Spec:
-    ORDER = (1, 0, 2)   # preferred address: IPv6, IPv4, plain tuple
+def dom_chunk(host: bytes, port: int) -> bytes:
+    return b"\x02" + len(host).to_bytes(2, "big") + host + port.to_bytes(2, "big")
 
-    def __init__(self):
+
+def parse_list(tok: str):
+    inner = tok[1:-1]
+    return inner.split(",") if inner else []
+
+
+# ---------------------------------------------------------------------------------------------------------------
+class Spec:
+    """Reference graph: membership (verified peers, their addresses, advertised services), known addresses, blacklists —
+    no index, no caches.  The *answers* below are the specification (what each lookup means).  The *mutators* follow
+    what network.py does to the membership; where network.py takes a decision that the property does not fix (`peek`
+    points, marked TOLERANT) the reference graph follows the implementation instead of pinning today's behaviour."""
+
+    def __init__(self, order=(1, 0, 2)):
+        self.order = order
         self.V = {}      # key -> {slot: addr}
+        self.CT = {}     # key -> address the stored Peer object was constructed with (Peer._address start value)
         self.SV = {}     # key -> set(service)
         self.AA = {}     # addr -> (introducer key | None, service | None, new_style)
         self.BL = set()
         self.BLM = set()
 
-    def add(self, k, slots):
+    def add(self, k, slots, ctor=None, peek=None):
         if k in self.BLM:
             return
         if k in self.V:
@@ -226,35 +280,54 @@ class Spec:
             return
         if any(a in self.AA for a in slots.values()):
             self.V[k] = dict(slots)
+            self.CT[k] = ctor
+            if peek:   # TOLERANT: registering the peer's other addresses as well would be fine
+                for a in slots.values():
+                    if a not in self.AA and peek.has_addr(a):
+                        self.AA[a] = (None, None, False)
         elif all(a not in self.BL for a in slots.values()):
             for a in slots.values():
                 self.AA.setdefault(a, (None, None, False))
             self.V[k] = dict(slots)
+            self.CT[k] = ctor
 
-    def mutate(self, t):
+    def mutate(self, t, peek=None):
         op = t[0]
         if op == "add":
-            self.add(*parse_peer(t[1]))
+            self.add(*parse_peer(t[1]), peer_ctor(t[1]), peek)
         elif op == "disc":
             k, slots = parse_peer(t[1])
             a = t[2]
             if a not in self.BL and (a not in self.AA or self.AA[a][0] not in self.V):
                 self.AA[a] = (k, None if t[3] == "-" else t[3], t[4] == "1")
-            self.add(k, slots)
+            self.add(k, slots, peer_ctor(t[1]), peek)
         elif op == "svcs":
             k, _ = parse_peer(t[1])
             self.SV.setdefault(k, set()).update(parse_list(t[2]))
+        elif op == "set":
+            k = int(t[1][1:])
+            if k in self.V:
+                self.V[k][int(t[2])] = t[3]
         elif op == "rmp":
             k, slots = parse_peer(t[1])
-            for a in slots.values():
-                self.AA.pop(a, None)
+            cands = set(slots.values()) | set(self.V.get(k, {}).values())
+            for a in cands:
+                if a in self.AA:
+                    # TOLERANT: whether the passed object's or the stored object's addresses are forgotten
+                    gone = (a in slots.values()) if peek is None else not peek.has_addr(a)
+                    if gone:
+                        del self.AA[a]
             self.V.pop(k, None)
+            self.CT.pop(k, None)
             self.SV.pop(k, None)
         elif op == "rma":
             self.AA.pop(t[1], None)
             for k in [k for k, sl in self.V.items() if t[1] in sl.values()]:
                 del self.V[k]
-                self.SV.pop(k, None)
+                self.CT.pop(k, None)
+                # TOLERANT: forgetting the services of a peer removed by address
+                if peek is None or not peek.has_services(k):
+                    self.SV.pop(k, None)
         elif op == "bla":
             self.BL.add(t[1])
         elif op == "blm":
@@ -263,13 +336,17 @@ class Spec:
             data = bytes.fromhex(t[1]) if t[1] != "-" else b""
             chunks, _ = snapshot_chunks(data)
             for c in chunks:
-                self.AA[chunk_addr_token(c)] = (None, None, False)
+                a = chunk_addr_token(c)
+                # TOLERANT: a load that skips blacklisted addresses would be fine
+                if a in self.BL and peek is not None and not peek.is_blank(a):
+                    continue
+                self.AA[a] = (None, None, False)
         elif op == "caps":
             pass
         else:
             raise ValueError(op)
 
-    # --- answers ---
+    # --- answers: the specification -------------------------------------------------------------------------
     def peers_at(self, a):
         return {k for k, sl in self.V.items() if a in sl.values()}
 
@@ -277,6 +354,8 @@ class Spec:
         return {k for k in self.V if s in self.SV.get(k, ())}
 
     def walkable(self, s, old_style):
+        if s == "s0":     # an empty service id means "no service" to network.py
+            s = None
         known = self.V if s is None else self.peers_for(s)
         taken = {a for k in known for a in self.V[k].values()}
         out = set(self.AA) - taken
@@ -286,7 +365,7 @@ class Spec:
                 intro, svc, ns = self.AA[a]
                 if old_style and ns:
                     continue
-                if s in (set(self.SV.get(intro, ())) | ({svc} if svc else set())):
+                if s in (set(self.SV.get(intro, ())) | ({svc} if svc and svc != "s0" else set())):
                     keep.add(a)
             out = keep
         return out
@@ -295,10 +374,10 @@ class Spec:
         return {a for a, w in self.AA.items() if w[0] == k}
 
     def preferred(self, k):
-        for s in self.ORDER:
+        for s in self.order:
             if s in self.V[k]:
                 return self.V[k][s]
-        return None
+        return self.CT.get(k)
 
     def snapshot_addrs(self):
         out = []
@@ -315,15 +394,23 @@ class Spec:
                 show_list("p%d:%s" % (k, "+".join(sorted(v))) for k, v in self.SV.items()))
 
 
-def parse_list(tok: str):
-    inner = tok[1:-1]
-    return inner.split(",") if inner else []
-
-
-MUTATORS = {"add", "disc", "svcs", "rmp", "rma", "bla", "blm", "load", "caps"}
+MUTATORS = {"add", "disc", "svcs", "set", "rmp", "rma", "bla", "blm", "load", "caps"}
 SITE = {"qa": "get_verified_by_address", "qk": "get_verified_by_public_key_bin", "qs": "get_peers_for_service",
         "qw": "get_walkable_addresses", "qi": "get_introductions_from", "qsp": "get_services_for_peer",
         "qn": "is_new_style", "snap": "snapshot"}
+_MUT_SITE = {"add": "add_verified_peer", "disc": "discover_address", "svcs": "discover_services", "rmp": "remove_peer",
+             "rma": "remove_by_address", "bla": "blacklist", "blm": "blacklist_mids", "load": "load_snapshot",
+             "caps": "caps", "set": "Peer.add_address"}
+CACHES = (("reverse_ip_lookup", "reverse_ip_cache_size"), ("reverse_intro_lookup", "reverse_intro_cache_size"),
+          ("reverse_service_lookup", "reverse_service_cache_size"))
+
+
+class _Hang(Exception):
+    pass
+
+
+def _alarm(signum, frame):
+    raise _Hang()
 
 
 # ---------------------------------------------------------------------------------------------------------------
@@ -333,6 +420,17 @@ class Real:
     def __init__(self):
         self.W = world()
         self.net = self.W.Network()
+
+    # peek interface used by the TOLERANT points of Spec
+    def has_addr(self, tok):
+        return tuple(addr_value(tok)) in self.net._all_addresses
+
+    def has_services(self, k):
+        return self.W.key_bins[k] in self.net.services_per_peer
+
+    def is_blank(self, tok):
+        w = self.net._all_addresses.get(tuple(addr_value(tok)))
+        return w is not None and not w.introduced_by and w.services is None and not w.new_style
 
     def observe(self):
         """attach a PeerObserver; returns the (live) event list"""
@@ -352,43 +450,54 @@ class Real:
         W, n = self.W, self.net
         return (show_list(show_peer(W.peer_key(p), W.peer_slots(p)) for p in n.verified_peers),
                 show_list("%s>%s/%s/%d" % (addr_token(a), "-" if not w.introduced_by else "p%d" % W.key_index[w.introduced_by],
-                                           (w.services[:2].decode() if w.services else "-"), bool(w.new_style))
+                                           (svc_show(w.services) if w.services is not None else "-"), bool(w.new_style))
                           for a, w in n._all_addresses.items()),
-                show_list("p%d:%s" % (W.key_index[k], "+".join(sorted(s[:2].decode() for s in v)))
+                show_list("p%d:%s" % (W.key_index[k], "+".join(sorted(svc_show(s) for s in v)))
                           for k, v in n.services_per_peer.items()))
 
-    def peer_arg(self, tok, canonical=False):
-        k, slots = parse_peer(tok)
-        if canonical:
-            obj = self.net.verified_by_public_key_bin.get(self.W.key_bins[k])
-            if obj is not None and self.W.peer_slots(obj) == slots:
-                return obj
-        return self.W.make_peer(k, slots)
-
-    def canonical_token(self, k):
-        """token of the stored object for key k (None when there is none)"""
+    def stored(self, k):
         obj = self.net.verified_by_public_key_bin.get(self.W.key_bins[k])
         if obj is None:
             for p in self.net.verified_peers:
                 if self.W.peer_key(p) == k:
                     obj = p
-        return None if obj is None else peer_token(k, self.W.peer_slots(obj))
+        return obj
+
+    def peer_arg(self, tok, allow_stored=False):
+        k, slots = parse_peer(tok)
+        if allow_stored or tok.startswith("@"):
+            obj = self.net.verified_by_public_key_bin.get(self.W.key_bins[k])
+            if obj is not None and self.W.peer_slots(obj) == slots:
+                return obj
+        return self.W.make_peer(k, slots, peer_ctor(tok))
+
+    def canonical_token(self, k, stored_flag=False):
+        obj = self.stored(k)
+        return None if obj is None else peer_token(k, self.W.peer_slots(obj), stored=stored_flag)
 
     def mutate(self, t):
         n, W = self.net, self.W
         op = t[0]
         if op == "caps":
-            n.reverse_ip_cache_size, n.reverse_intro_cache_size, n.reverse_service_cache_size = map(int, t[1:4])
+            for (_c, size_name), v in zip(CACHES, t[1:4]):
+                if not hasattr(n, size_name):
+                    raise InfraError(f"Network has no attribute {size_name}: cannot set the cache caps")
+                setattr(n, size_name, int(v))
         elif op == "add":
             n.add_verified_peer(self.peer_arg(t[1]))
         elif op == "disc":
-            v = addr_value(t[2])
-            a = W.slot_cls[0](*v) if t[2][0] == "4" else W.slot_cls[1](*v) if t[2][0] == "6" else tuple(v)
-            n.discover_address(self.peer_arg(t[1]), a, None if t[3] == "-" else svc_bytes(t[3]), t[4] == "1")
+            slot = 0 if t[2][0] == "4" else 1 if t[2][0] == "6" else 2
+            n.discover_address(self.peer_arg(t[1]), W.addr_obj(slot, t[2]), None if t[3] == "-" else svc_bytes(t[3]),
+                               t[4] == "1")
         elif op == "svcs":
             n.discover_services(self.peer_arg(t[1]), [svc_bytes(s) for s in parse_list(t[2])])
+        elif op == "set":
+            # what lazy_wrapper does before every handler: fetch the stored Peer and add the source address to it
+            obj = n.verified_by_public_key_bin.get(W.key_bins[int(t[1][1:])])
+            if obj:
+                obj.add_address(W.addr_obj(int(t[2]), t[3]))
         elif op == "rmp":
-            n.remove_peer(self.peer_arg(t[1], canonical=True))
+            n.remove_peer(self.peer_arg(t[1], allow_stored=True))
         elif op == "rma":
             n.remove_by_address(tuple(addr_value(t[1])))
         elif op == "bla":
@@ -396,7 +505,12 @@ class Real:
         elif op == "blm":
             n.blacklist_mids.append(W.mids[int(t[1][1:])])
         elif op == "load":
-            n.load_snapshot(bytes.fromhex(t[1]) if t[1] != "-" else b"")
+            signal.signal(signal.SIGALRM, _alarm)
+            signal.setitimer(signal.ITIMER_REAL, 10)
+            try:
+                n.load_snapshot(bytes.fromhex(t[1]) if t[1] != "-" else b"")
+            finally:
+                signal.setitimer(signal.ITIMER_REAL, 0)
         else:
             raise ValueError(op)
 
@@ -421,7 +535,7 @@ class Real:
             return show_list(addr_token(a) for a in r), []
         if op == "qsp":
             r = n.get_services_for_peer(W.make_peer(int(t[1][1:]), {}))
-            return show_list(s[:2].decode() for s in r), []
+            return show_list(svc_show(s) for s in r), []
         if op == "qn":
             return ("1" if n.is_new_style(tuple(addr_value(t[1]))) else "0"), []
         if op == "snap":
@@ -431,6 +545,13 @@ class Real:
                 return "undecodable:" + data.hex(), []
             return "[" + ",".join(sorted(c.hex() for c in chunks)) + "]", []
         raise ValueError(op)
+
+    def cache_overflow(self):
+        for cache, size in CACHES:
+            c, cap = getattr(self.net, cache, None), getattr(self.net, size, None)
+            if c is not None and cap is not None and len(c) > cap:
+                return f"{cache} holds {len(c)} entries, {size} is {cap}"
+        return None
 
 
 # ---------------------------------------------------------------------------------------------------------------
@@ -444,6 +565,13 @@ def check_query(ctx: Ctx, spec: Spec, real: Real, t, got: str, objs, history, li
         ctx.oracle_fail(f"{site}:{kind}", f"{what} (line {line_no}: `{' '.join(t)}`)",
                         {"lines": history[:line_no + 1], "failing_line": line_no, "answer": got})
         ctx.count(f"oracle_fail:{site}:{kind}")
+
+    def cmp_list(exp_items):
+        exp = show_list(set(exp_items))
+        if got != exp:
+            g, e = parse_list(got), set(parse_list(exp))
+            kind = "extra" if set(g) - e else "missing" if e - set(g) else "duplicate"
+            fail(kind, f"returns {got}, expected {exp}")
 
     # returned Peer objects must be verified and be the stored objects
     for p in objs:
@@ -468,24 +596,13 @@ def check_query(ctx: Ctx, spec: Spec, real: Real, t, got: str, objs, history, li
         if got != exp:
             fail("missing" if got == "none" else "wrong-peer", f"returns {got}, expected {exp}")
     elif op == "qs":
-        exp = show_list(show_peer(k, spec.V[k]) for k in spec.peers_for(t[1]))
-        if got != exp:
-            g, e = set(parse_list(got)), set(parse_list(exp))
-            fail("extra" if g - e else "missing", f"returns {got}, expected {exp}")
+        cmp_list(show_peer(k, spec.V[k]) for k in spec.peers_for(t[1]))
     elif op == "qw":
-        exp = show_list(spec.walkable(None if t[1] == "-" else t[1], t[2] == "1"))
-        if got != exp:
-            g, e = set(parse_list(got)), set(parse_list(exp))
-            fail("extra" if g - e else "missing", f"returns {got}, expected {exp}")
+        cmp_list(spec.walkable(None if t[1] == "-" else t[1], t[2] == "1"))
     elif op == "qi":
-        exp = show_list(spec.intros(int(t[1][1:])))
-        if got != exp:
-            g, e = set(parse_list(got)), set(parse_list(exp))
-            fail("extra" if g - e else "missing", f"returns {got}, expected {exp}")
+        cmp_list(spec.intros(int(t[1][1:])))
     elif op == "qsp":
-        exp = show_list(spec.SV.get(int(t[1][1:]), ()))
-        if got != exp:
-            fail("mismatch", f"returns {got}, expected {exp}")
+        cmp_list(spec.SV.get(int(t[1][1:]), ()))
     elif op == "qn":
         exp = "1" if spec.AA.get(t[1], (None, None, False))[2] else "0"
         if got != exp:
@@ -496,14 +613,20 @@ def check_query(ctx: Ctx, spec: Spec, real: Real, t, got: str, objs, history, li
             fail("mismatch", f"returns {got}, expected {exp}")
 
 
-def classify(spec: "Spec", real: "Real", t) -> list:
+def classify(spec: Spec, real: Real, t) -> list:
     """input class / branch of one protocol line, derived from the reference graph before the line is executed
     (evidence only: which branches of network.py the generators reach, and how often)"""
     op = t[0]
     out = []
+    if op in ("add", "disc", "svcs") and t[1].startswith("@"):
+        out.append(f"{op}:stored-object-passed")
     if op in ("add", "disc"):
         k, slots = parse_peer(t[1])
         vals = list(slots.values())
+        if peer_ctor(t[1]) is not None:
+            out.append("peer:constructor-address" + ("(class outside INTERFACE_ORDER)" if not set(slots) & set(spec.order) else ""))
+        if set(slots) & {3, 4}:
+            out.append("peer:LAN-or-Domain-address-class")
 
         def add_branch():
             if k in spec.BLM:
@@ -522,12 +645,18 @@ def classify(spec: "Spec", real: "Real", t) -> list:
             elif a not in spec.AA:
                 out.append("disc:new-address")
             elif spec.AA[a][0] not in spec.V:
-                out.append("disc:reassigned(introducer-gone)")
+                out.append("disc:reassigned(introducer-gone)" + ("+same-introducer-again" if spec.AA[a][0] == k else ""))
             else:
                 out.append("disc:kept(introducer-verified)")
-            if k in spec.V and a in spec.V[k].values():
-                out.append("disc:own-address")
+            if spec.peers_at(a):
+                out.append("disc:address-used-by-verified-peer")
+            if t[3] == "s0":
+                out.append("disc:empty-service-id")
         out.append(f"{op}>add:{add_branch()}")
+    elif op == "set":
+        k = int(t[1][1:])
+        out.append("set:" + ("stored-peer-changes-address" if k in spec.V and spec.V[k].get(int(t[2])) not in (None, t[3])
+                             else "stored-peer-new-class" if k in spec.V else "no-stored-peer"))
     elif op == "rmp":
         k, slots = parse_peer(t[1])
         if k not in spec.V:
@@ -546,7 +675,9 @@ def classify(spec: "Spec", real: "Real", t) -> list:
         chunks, end = snapshot_chunks(data)
         out.append("load:%s-addresses" % (len(chunks) if len(chunks) < 3 else "3+"))
         if end != len(data):
-            out.append("load:garbage-tail")
+            out.append("load:undecodable-rest(%s)" % ("<8" if len(data) - end < 8 else "8+"))
+        if any(c[0] == 2 and any(b > 127 for b in c[3:-2]) for c in chunks):
+            out.append("load:multibyte-utf8-host")
         if any(chunk_addr_token(c) in spec.BL for c in chunks):
             out.append("load:blacklisted-address")
         if any(spec.AA.get(chunk_addr_token(c), (None,))[0] is not None for c in chunks):
@@ -554,16 +685,20 @@ def classify(spec: "Spec", real: "Real", t) -> list:
     elif op == "svcs":
         k, _ = parse_peer(t[1])
         out.append("svcs:" + ("verified-peer" if k in spec.V else "unverified-peer"))
+        if "s0" in parse_list(t[2]):
+            out.append("svcs:empty-service-id")
     elif op == "qa":
         n = len(spec.peers_at(t[1]))
         out.append("qa:%s-candidates" % (n if n < 2 else "2+"))
         c = real.net.reverse_ip_lookup
         out.append("qa:cache-" + ("hit" if tuple(addr_value(t[1])) in c else "miss")
                    + ("+full" if len(c) >= real.net.reverse_ip_cache_size else ""))
-    elif op == "qs" or (op == "qw" and t[1] != "-"):
+    elif op == "qs" or (op == "qw" and t[1] not in ("-", "s0")):
         c = real.net.reverse_service_lookup
         out.append(f"{op}:cache-" + ("hit" if svc_bytes(t[1]) in c else "miss")
                    + ("+full" if len(c) >= real.net.reverse_service_cache_size else ""))
+    elif op == "qw":
+        out.append("qw:no-service" + ("(empty id)" if t[1] == "s0" else ""))
     elif op == "qi":
         c = real.net.reverse_intro_lookup
         hit = any(real.W.peer_key(p) == int(t[1][1:]) for p in c)
@@ -575,6 +710,8 @@ def classify(spec: "Spec", real: "Real", t) -> list:
             out.append("snap:peer-address-not-in-_all_addresses")
         if any(spec.preferred(k) in (None, ZERO) for k in spec.V):
             out.append("snap:peer-without-usable-address")
+        if any(not set(spec.V[k]) & set(spec.order) and spec.CT.get(k) for k in spec.V):
+            out.append("snap:address-only-from-constructor")
     return out
 
 
@@ -597,32 +734,43 @@ def sweep_lines(keys, addrs):
     return out
 
 
+def resolve(t, stored_token):
+    """'rmp p0:*' / 'add @p0:*' -> the stored object's token (or an address-less fresh peer when there is none)"""
+    if t[0] in ("rmp", "add", "disc", "svcs") and t[1].endswith(":*"):
+        k = int(t[1].lstrip("@")[1:-2])
+        tok = stored_token(k, t[1].startswith("@"))
+        t[1] = tok if tok is not None else f"p{k}:-"
+    return t
+
+
 def execute(ctx: Ctx, lines, tag: str):
     """run one sequence on the real code and the reference graph; returns the lines actually sent to the model
-    (rmp '*' resolved to the stored object's addresses, qa hints filled in) and the implementation's answers"""
-    spec, real = Spec(), Real()
+    ('*' resolved to the stored object's addresses, qa hints filled in) and the implementation's answers"""
+    real = Real()
+    spec = Spec(real.W.order)
     sent, answers = [], []
     last = real.digest()
     events = real.observe()
     for i, ln in enumerate(lines):
-        t = ln.split()
-        if t[0] == "rmp" and t[1].endswith(":*"):
-            k = int(t[1][1:-2])
-            tok = real.canonical_token(k)
-            t[1] = tok if tok is not None else f"p{k}:-"
+        t = resolve(ln.split(), real.canonical_token)
         if t[0] != "caps":
-            for c in classify(spec, real, t):
-                ctx.count("class:" + c)
+            try:
+                for c in classify(spec, real, t):
+                    ctx.count("class:" + c)
+            except AttributeError:
+                ctx.count("class:unavailable(cache attribute renamed)")
         if t[0] in MUTATORS:
             del events[:]
             keys_before = set(spec.V)
             try:
                 real.mutate(t)
                 ans = "ok"
-            except Exception as e:  # no mutator may raise on these inputs
+            except InfraError:
+                raise
+            except (Exception, _Hang) as e:  # no mutator may raise (or hang) on these inputs
                 ans = "raised:" + type(e).__name__
-                ctx.oracle_fail(f"{t[0]}:raised", f"{ln} raised {e!r}", {"lines": sent + [" ".join(t)], "failing_line": i})
-            spec.mutate(t)
+                ctx.oracle_fail(f"{_MUT_SITE[t[0]]}:raised", f"{ln} raised {e!r}", {"lines": sent + [" ".join(t)], "failing_line": i})
+            spec.mutate(t, real)
             sent.append(" ".join(t))
             answers.append(ans)
             # PeerObserver callbacks: exactly the keys that entered / left the membership, once each
@@ -637,10 +785,9 @@ def execute(ctx: Ctx, lines, tag: str):
             last = real.digest()
             if last != spec.digest():
                 d_r, d_s = last, spec.digest()
-                part = ["verified_peers", "_all_addresses", "services_per_peer"][[a == b for a, b in zip(d_r, d_s)].index(False)]
-                ctx.oracle_fail(f"{_MUT_SITE[t[0]]}:{part}", f"after `{' '.join(t)}` {part} is "
-                                f"{d_r[['verified_peers', '_all_addresses', 'services_per_peer'].index(part)]}, the graph implies "
-                                f"{d_s[['verified_peers', '_all_addresses', 'services_per_peer'].index(part)]}",
+                idx = [a == b for a, b in zip(d_r, d_s)].index(False)
+                part = ["verified_peers", "_all_addresses", "services_per_peer"][idx]
+                ctx.oracle_fail(f"{_MUT_SITE[t[0]]}:{part}", f"after `{' '.join(t)}` {part} is {d_r[idx]}, the graph implies {d_s[idx]}",
                                 {"lines": sent[:], "failing_line": i})
                 ctx.count(f"oracle_fail:{_MUT_SITE[t[0]]}:{part}")
                 return sent, answers, False
@@ -663,28 +810,69 @@ def execute(ctx: Ctx, lines, tag: str):
                 return sent, answers, False
             if not got.startswith("raised:"):
                 check_query(ctx, spec, real, t, got, objs, sent, i)
+        over = real.cache_overflow()
+        if over:
+            site = _MUT_SITE.get(t[0]) or SITE[t[0]]
+            ctx.oracle_fail(f"{site}:cache-exceeds-cap", f"after `{' '.join(t)}` {over}", {"lines": sent[:], "failing_line": i})
+            ctx.count(f"oracle_fail:{site}:cache-exceeds-cap")
+            return sent, answers, False
     return sent, answers, True
-
-
-_MUT_SITE = {"add": "add_verified_peer", "disc": "discover_address", "svcs": "discover_services", "rmp": "remove_peer",
-             "rma": "remove_by_address", "bla": "blacklist", "blm": "blacklist_mids", "load": "load_snapshot",
-             "caps": "caps"}
 
 
 # ---------------------------------------------------------------------------------------------------------------
 # generators
-def rand_slots(rng, rich=True):
+def rand_slots(rng):
+    """(slots, ctor address or None)"""
     slots = {}
     r = rng.random()
     if r < 0.04:
-        return slots
+        return slots, None
     if r < 0.7:
         slots[0] = rng.choice(V4 if rng.random() < 0.95 else [ZERO])
     if rng.random() < 0.25 or not slots:
         slots[1] = rng.choice(V6)
     if rng.random() < 0.15:
         slots[2] = rng.choice(V4 + DOM)
-    return slots
+    if rng.random() < 0.12:
+        slots[3] = rng.choice(V4)
+    if rng.random() < 0.10:
+        slots[4] = rng.choice(DOM)
+    if rng.random() < 0.08:      # a peer that only has an address of a class outside INTERFACE_ORDER
+        slots = {rng.choice([3, 4]): rng.choice(V4 if rng.random() < 0.5 else DOM)}
+    ctor = rng.choice(sorted(slots)) if slots and rng.random() < 0.35 else None
+    return slots, ctor
+
+
+def rand_peer(rng, k):
+    slots, ctor = rand_slots(rng)
+    return peer_token(k, slots, ctor)
+
+
+UTF8_HOSTS = ["nödé.example".encode(), "点.example".encode(), b"plain.example", "x\U0001f600y".encode()]
+BAD_HOSTS = [b"\xff\xfe.example", b"ab\xc3", b"\xed\xa0\x80x", b"\xc0\xaf"]
+
+
+def rand_snapshot(rng, addrs, corrupt_p=0.5):
+    parts = [addr_chunk(rng.choice(addrs)) for _ in range(rng.choice([0, 1, 1, 2, 2, 3, 4]))]
+    if rng.random() < 0.25:
+        host = rng.choice(UTF8_HOSTS)
+        parts.insert(rng.randrange(len(parts) + 1), b"\x02" + len(host).to_bytes(2, "big") + host + b"\x13\x88")
+    data = b"".join(parts)
+    if rng.random() < corrupt_p:
+        kind = rng.randrange(5)
+        good = addr_chunk(rng.choice(addrs))
+        if kind == 0:      # an unknown type byte, then a well-formed entry (a load that re-synchronises would pick it up)
+            data += bytes([rng.choice([0, 4, 9, 200])]) + good
+        elif kind == 1:    # truncated last entry
+            data += good[:rng.randrange(1, len(good))]
+        elif kind == 2:    # host name that is not UTF-8, then a well-formed entry
+            host = rng.choice(BAD_HOSTS)
+            data += b"\x02" + len(host).to_bytes(2, "big") + host + b"\x13\x88" + good
+        elif kind == 3:    # host name length beyond the buffer
+            data += b"\x02\xff\xf0" + bytes(rng.randrange(256) for _ in range(rng.randrange(0, 12)))
+        else:              # random tail
+            data += bytes(rng.randrange(256) for _ in range(rng.randrange(1, 30)))
+    return data.hex() or "-"
 
 
 def random_sequence(rng, length, nkeys):
@@ -692,73 +880,95 @@ def random_sequence(rng, length, nkeys):
     lines = ["caps %d %d %d" % tuple(caps)]
     keys = list(range(nkeys))
     addrs = POOL
-    # occasionally blacklist up front
+    g = Spec()          # steers the choices (which keys are verified, which addresses are in use)
+
+    def emit(ln):
+        t = resolve(ln.split(), lambda k, st: peer_token(k, g.V[k], stored=st) if k in g.V else None)
+        if t[0] in MUTATORS:
+            g.mutate(t)
+        lines.append(ln)
+
+    if rng.random() < 0.2:
+        emit("blm p%d" % keys[-1])
     if rng.random() < 0.3:
-        lines.append("blm p%d" % rng.choice(keys))
-    if rng.random() < 0.3:
-        lines.append("bla %s" % rng.choice(addrs))
+        emit("bla %s" % rng.choice(addrs))
     if rng.random() < 0.15:
-        n = rng.randrange(0, 4)
-        data = b"".join(addr_chunk(rng.choice(addrs)) for _ in range(n))
-        if rng.random() < 0.3:
-            data += bytes(rng.randrange(256) for _ in range(rng.randrange(1, 9)))
-        lines.append("load %s" % (data.hex() or "-"))
-    weights = [("add", 14), ("disc", 12), ("svcs", 9), ("rmp", 7), ("rma", 6), ("bla", 1), ("blm", 1), ("load", 1),
-               ("qa", 12), ("qk", 6), ("qs", 8), ("qw", 9), ("qi", 8), ("qsp", 2), ("qn", 1), ("snap", 2)]
+        emit("load %s" % rand_snapshot(rng, addrs))
+    weights = [("add", 14), ("disc", 12), ("svcs", 9), ("set", 6), ("rmp", 7), ("rma", 6), ("bla", 1), ("blm", 0.3),
+               ("load", 1.5), ("qa", 12), ("qk", 6), ("qs", 8), ("qw", 9), ("qi", 8), ("qsp", 2), ("qn", 1), ("snap", 2)]
     names = [w[0] for w in weights]
     ws = [w[1] for w in weights]
+
+    def some_key(prefer):
+        prefer = sorted(prefer)
+        return rng.choice(prefer) if prefer and rng.random() < 0.7 else rng.choice(keys)
+
+    def some_addr():
+        used = sorted({a for sl in g.V.values() for a in sl.values()} | set(g.AA))
+        return rng.choice(used) if used and rng.random() < 0.65 else rng.choice(addrs)
+
     for _ in range(length):
         op = rng.choices(names, ws)[0]
         k = rng.choice(keys)
+        svcs = SVCS + (["s0"] if rng.random() < 0.06 else [])
+        if op in ("add", "disc", "svcs") and k in g.V and rng.random() < 0.3:
+            ptok = f"@p{k}:*"       # the handler got the stored Peer from the index (lazy_wrapper) and passes it on
+        else:
+            ptok = rand_peer(rng, k)
         if op == "add":
-            lines.append("add " + peer_token(k, rand_slots(rng)))
+            emit("add " + ptok)
         elif op == "disc":
-            lines.append("disc %s %s %s %d" % (peer_token(k, rand_slots(rng)), rng.choice(addrs),
-                                               rng.choice(SVCS + ["-"]), rng.random() < 0.4))
+            emit("disc %s %s %s %d" % (ptok, some_addr() if rng.random() < 0.5 else rng.choice(addrs),
+                                       rng.choice(svcs + ["-"]), rng.random() < 0.4))
         elif op == "svcs":
             n = rng.choice([0, 1, 1, 1, 2, 3])
-            lines.append("svcs %s [%s]" % (peer_token(k, rand_slots(rng)), ",".join(rng.sample(SVCS, n))))
+            emit("svcs %s [%s]" % (ptok, ",".join(rng.sample(svcs, min(n, len(svcs))))))
+        elif op == "set":
+            kk = some_key(g.V)
+            slot = rng.choice([0, 0, 1, 2, 3, 4])
+            emit("set p%d %d %s" % (kk, slot, rng.choice(V4 if slot in (0, 3) else V6 if slot == 1 else DOM if slot == 4 else V4 + DOM)))
         elif op == "rmp":
-            lines.append("rmp " + (f"p{k}:*" if rng.random() < 0.7 else peer_token(k, rand_slots(rng))))
+            kk = some_key(g.V)
+            emit("rmp " + (f"p{kk}:*" if rng.random() < 0.7 else rand_peer(rng, kk).replace("^", "")))
         elif op == "rma":
-            lines.append("rma " + rng.choice(addrs))
+            emit("rma " + some_addr())
         elif op == "bla":
-            lines.append("bla " + rng.choice(addrs))
+            emit("bla " + rng.choice(addrs))
         elif op == "blm":
-            lines.append("blm p%d" % k)
+            emit("blm p%d" % keys[-1])
         elif op == "load":
-            data = b"".join(addr_chunk(rng.choice(addrs)) for _ in range(rng.randrange(0, 3)))
-            lines.append("load %s" % (data.hex() or "-"))
+            emit("load %s" % rand_snapshot(rng, addrs))
         elif op == "qa":
-            lines.append("qa %s ?" % rng.choice(addrs))
+            emit("qa %s ?" % some_addr())
         elif op == "qk":
-            lines.append("qk p%d" % k)
+            emit("qk p%d" % some_key(g.V))
         elif op == "qs":
-            lines.append("qs " + rng.choice(SVCS))
+            emit("qs " + rng.choice(svcs))
         elif op == "qw":
-            lines.append("qw %s %d" % (rng.choice(SVCS + ["-"]), rng.random() < 0.3))
+            emit("qw %s %d" % (rng.choice(svcs + ["-"]), rng.random() < 0.3))
         elif op == "qi":
-            lines.append("qi p%d" % k)
+            emit("qi p%d" % some_key({w[0] for w in g.AA.values() if w[0] is not None}))
         elif op == "qsp":
-            lines.append("qsp p%d" % k)
+            emit("qsp p%d" % some_key(g.SV))
         elif op == "qn":
-            lines.append("qn " + rng.choice(addrs))
+            emit("qn " + some_addr())
         else:
-            lines.append("snap")
+            emit("snap")
     sw = sweep_lines(keys, addrs)
     return lines + sw + sw
 
 
 A0, A1, A2 = V4[0], V4[1], V4[2]
 EXH_ALPHABET = [
-    f"add p0:0={A0}", f"add p0:0={A1}", f"add p1:0={A0}", f"add p1:0={A1}",
-    f"disc p0:0={A0} {A2} s1 0", f"disc p1:0={A1} {A2} s2 1",
+    f"add p0:0={A0}", f"add p0:0={A1}", f"add p1:0={A0}", f"add p2:0={A2}",
+    f"disc p0:0={A0} {A2} s1 0", f"disc p1:0={A1} {A2} s2 1", f"disc p1:0={A1} {A0} s1 0",
     "svcs p0:- [s1]", "svcs p1:- [s1,s2]",
-    "rmp p0:*", "rmp p1:*", f"rma {A0}", f"rma {A2}",
-    f"qa {A0} ?", f"qa {A1} ?", "qs s1", "qw s1 0", "qw s2 0", "qi p0", "qi p1", "qk p0",
+    "rmp p0:*", "rmp p1:*", f"rma {A0}", f"rma {A2}", f"set p0 0 {A1}",
+    f"qa {A0} ?", f"qa {A1} ?", "qs s1", "qw s1 0", "qi p0", "qi p1",
 ]
-EXH_SWEEP = ([f"qk p{k}" for k in (0, 1)] + [f"qi p{k}" for k in (0, 1)] + [f"qa {a} ?" for a in (A0, A1, A2)]
-             + ["qs s1", "qs s2", "qw s1 0", "qw s2 0", "qw s1 1", "qw - 0", "snap"])
+EXH_SMALL = [0, 1, 4, 6, 7, 9, 11, 13, 14, 18]
+EXH_SWEEP = ([f"qk p{k}" for k in (0, 1, 2)] + [f"qi p{k}" for k in (0, 1)] + [f"qa {a} ?" for a in (A0, A1, A2)]
+             + ["qs s1", "qs s2", "qw s1 0", "qw s2 0", "qw - 0", "snap"])
 EXH_AGAIN = ["qk p0", "qi p0", "qi p1", f"qa {A0} ?", f"qa {A1} ?", "qs s1", "qw s1 0", "qw s2 0"]
 
 
@@ -779,11 +989,13 @@ def stale_shape(lines) -> bool:
 def run_batch(ctx: Ctx, seqs, tag, use_model):
     """execute sequences on the implementation (+ oracle) and, in one driver batch, on the model"""
     all_lines, all_answers, marks = [], [], []
-    for lines in seqs:
+    for n_seq, lines in enumerate(seqs):
         sent, answers, _ok = execute(ctx, lines, tag)
         ctx.case("\n".join(sent), stale_shape(sent))
         ctx.count(f"{tag}:sequences")
         ctx.count(f"{tag}:len<=%d" % (10 if len(sent) <= 10 else 50 if len(sent) <= 50 else 100 if len(sent) <= 100 else 400))
+        if n_seq == 0 and tag in ("scripted", "exhaustive", "random") and not ctx.searching:
+            ctx.sample({"generator": tag, "lines": sent[:60], "implementation_answers": answers[:60]}, limit=4)
         for ln, a in zip(sent, answers):
             op = ln.split(" ", 1)[0]
             ctx.count(f"op:{op}")
@@ -806,7 +1018,6 @@ def run_batch(ctx: Ctx, seqs, tag, use_model):
                                  f"(line {i - s - 1} of a {tag} sequence)",
                                  {"lines": all_lines[s + 1:i + 1], "model": replies[i], "impl": all_answers[i]})
                     break
-        # model-side cache statistics (informational): how often eviction happened in the model
         ctx.count(f"{tag}:driver_lines", len(all_lines))
 
 
@@ -816,42 +1027,61 @@ def exhaustive(ctx: Ctx, depth: int, use_model: bool, alphabet=None):
     batch = []
     for d in range(1, depth + 1):
         for combo in itertools.product(alphabet, repeat=d):
-            # symmetry / redundancy pruning: a sequence that starts with a query on the empty graph adds nothing
+            # redundancy pruning: a sequence that starts with a query on the empty graph adds nothing
             if combo[0][0] == "q" and d > 1:
                 continue
             batch.append([caps] + list(combo) + EXH_SWEEP + EXH_AGAIN)
             if len(batch) >= 20000:
-                run_batch(ctx, batch, f"exhaustive", use_model)
+                run_batch(ctx, batch, "exhaustive", use_model)
                 batch = []
     if batch:
-        run_batch(ctx, batch, f"exhaustive", use_model)
+        run_batch(ctx, batch, "exhaustive", use_model)
 
 
 def scripted():
-    """the hand-found shapes of DESIGN.md section 6 item 8, kept as a corpus"""
+    """hand-written shapes: DESIGN.md section 6 item 8, the seeded changes, the review's regressions"""
     a, b, x = V4[0], V4[1], V4[2]
+    c500 = "caps 500 500 500"
     return [
-        ["caps 500 500 500", f"add p0:0={a}", f"qa {a} ?", "rmp p0:*", f"qa {a} ?", "qk p0"],
-        ["caps 500 500 500", f"add p0:0={a}", f"rma {a}", "qk p0", f"add p0:0={a}", f"qa {a} ?", "qk p0"],
-        ["caps 500 500 500", f"add p0:0={a}", "svcs p0:- [s1]", f"disc p0:0={a} {x} s2 0", "qs s2", "qw s2 0", "qs s2",
-         "qsp p0"],
-        ["caps 500 500 500", f"add p0:0={a}", f"qa {a} ?", f"add p0:0={b}", f"qa {a} ?", f"qa {b} ?"],
-        ["caps 500 500 500", f"add p0:0={a}", f"disc p0:0={a} {x} s1 0", "qi p0", f"rma {x}", "qi p0", "qw - 0"],
-        ["caps 500 500 500", "svcs p0:- [s1]", "qs s1", f"add p0:0={a}", "qs s1"],
+        [c500, f"add p0:0={a}", f"qa {a} ?", "rmp p0:*", f"qa {a} ?", "qk p0"],
+        [c500, f"add p0:0={a}", f"rma {a}", "qk p0", f"add p0:0={a}", f"qa {a} ?", "qk p0"],
+        [c500, f"add p0:0={a}", "svcs p0:- [s1]", f"disc p0:0={a} {x} s2 0", "qs s2", "qw s2 0", "qs s2", "qsp p0"],
+        [c500, f"add p0:0={a}", f"qa {a} ?", f"add p0:0={b}", f"qa {a} ?", f"qa {b} ?"],
+        [c500, f"add p0:0={a}", f"disc p0:0={a} {x} s1 0", "qi p0", f"rma {x}", "qi p0", "qw - 0"],
+        [c500, "svcs p0:- [s1]", "qs s1", f"add p0:0={a}", "qs s1"],
         ["caps 500 1 500", f"disc p0:0={a} {x} s1 0", f"disc p1:0={b} {V4[3]} s1 0", f"disc p0:0={a} {V6[0]} s1 0", "qi p0"],
-        ["caps 500 500 500", f"disc p0:0={a} {x} s1 0", "qi p0", "rmp p0:*", f"disc p1:0={b} {x} s1 0", "qi p0", "qi p1"],
+        [c500, f"disc p0:0={a} {x} s1 0", "qi p0", "rmp p0:*", f"disc p1:0={b} {x} s1 0", "qi p0", "qi p1"],
         # a re-added key is a new Peer object: a cached object of the old incarnation must not be returned
-        ["caps 500 500 500", f"add p0:0={a}", f"qa {a} ?", "rmp p0:*", f"add p0:0={b}", f"qa {a} ?", f"qa {b} ?"],
-        ["caps 500 500 500", f"add p0:0={a}", "svcs p0:- [s1]", "qs s1", "rmp p0:*", f"add p0:0={b}", "qs s1", "qw s1 0"],
-        # a verified peer whose address is NOT in _all_addresses (address update / shared address + remove_peer):
-        # removal by that address, lookups and the snapshot must still see it
+        [c500, f"add p0:0={a}", f"qa {a} ?", "rmp p0:*", f"add p0:0={b}", f"qa {a} ?", f"qa {b} ?"],
+        [c500, f"add p0:0={a}", "svcs p0:- [s1]", "qs s1", "rmp p0:*", f"add p0:0={b}", "qs s1", "qw s1 0"],
+        # a verified peer whose address is NOT in _all_addresses (address update / shared address + remove_peer)
         ["caps 1 1 1", f"add p0:0={b}", f"add p0:0={a}", f"qa {a} ?", f"rma {a}", "qk p0", f"qa {a} ?", f"add p0:0={a}", "qk p0"],
-        ["caps 500 500 500", f"add p0:0={a}", f"add p0:0={b}", "snap", f"qa {b} ?", "qw - 0"],
-        ["caps 500 500 500", f"add p0:0={a}", f"add p1:0={a}", "rmp p0:*", "snap", f"qa {a} ?", f"rma {a}", "qk p1", "snap"],
+        [c500, f"add p0:0={a}", f"add p0:0={b}", "snap", f"qa {b} ?", "qw - 0"],
+        [c500, f"add p0:0={a}", f"add p1:0={a}", "rmp p0:*", "snap", f"qa {a} ?", f"rma {a}", "qk p1", "snap"],
         # load_snapshot over an introduced address, eviction of the service and address caches
         ["caps 1 1 1", f"disc p0:0={a} {x} s1 0", "qi p0", "load " + addr_chunk(x).hex(), "qi p0", "qw - 0"],
         ["caps 1 1 1", f"add p0:0={a}", f"add p1:0={b}", "svcs p0:- [s1]", "svcs p1:- [s2]", "qs s1", "qs s2", "qs s1",
          f"qa {a} ?", f"qa {b} ?", f"qa {a} ?"],
+        # the same introducer introduces the same address again after having been removed: no duplicate in the answer
+        [c500, f"disc p0:0={a} {x} s1 0", "qi p0", "rmp p0:*", f"disc p0:0={a} {x} s1 0", "qi p0"],
+        # discover_address for an address that stays with its (verified) introducer must not touch other cached lists
+        [c500, f"disc p0:0={a} {x} s1 0", f"add p1:0={b}", "qi p1", f"disc p1:0={b} {x} s1 0", "qi p1", "qi p0"],
+        # introduction cache with cap 1: three introducers asked in turn
+        ["caps 1 1 1", f"disc p0:0={a} {x} s1 0", f"disc p1:0={b} {V4[3]} s1 0", "qi p0", "qi p1", "qi p2", "qi p0"],
+        # the stored Peer is updated in place (lazy_wrapper: peer.add_address(source_address)) and passed on
+        [c500, f"add p0:0={a}", f"qa {a} ?", f"set p0 0 {b}", "add @p0:*", f"qa {a} ?", f"qa {b} ?", "snap", f"rma {b}", "qk p0"],
+        [c500, f"add p0:0={a}", f"set p0 3 {b}", "svcs @p0:* [s1]", f"qa {b} ?", "qs s1", "snap"],
+        # Peer constructed with an address whose class is outside INTERFACE_ORDER: Peer.address is that address
+        [c500, f"add p0:^4={DOM[0]}", "snap", f"qa {DOM[0]} ?", "qw - 0"],
+        [c500, f"add p0:^3={a}", "snap", f"set p0 0 {b}", "snap"],
+        [c500, f"add p0:4={DOM[0]}", "snap"],
+        # empty service id
+        [c500, f"add p0:0={a}", "svcs p0:- [s0,s1]", "qs s0", f"disc p0:0={a} {x} s0 0", "qw s0 0", "qw s1 0", "qsp p0"],
+        # load: unknown type byte / bad UTF-8 host in front of a good entry; valid multi-byte host
+        [c500, "load 09" + addr_chunk(a).hex(), "qw - 0", "load " + addr_chunk(b).hex() + "020002fffe1388" + addr_chunk(a).hex(), "qw - 0"],
+        [c500, "load " + dom_chunk("nöd.x".encode(), 5000).hex() + addr_chunk(a).hex(), "qw - 0", "snap"],
+        # snapshot -> load: only the service-less query sees the loaded addresses
+        [c500, "load " + addr_chunk(a).hex() + addr_chunk(b).hex(), "qw - 0", "qw s1 0", f"add p0:0={a}", "qw - 0", "snap"],
     ]
 
 
@@ -871,9 +1101,7 @@ def run(ctx: Ctx):
             seqs = []
     run_batch(ctx, seqs, "random", use_model)
     if ctx.thorough():
-        # deeper enumeration over a reduced alphabet
-        small = [EXH_ALPHABET[i] for i in (0, 1, 4, 6, 8, 10, 11, 12, 14, 17)]
-        exhaustive(ctx, 5, use_model, small)
+        exhaustive(ctx, 5, use_model, [EXH_ALPHABET[i] for i in EXH_SMALL])
 
 
 def search(ctx: Ctx, reason: str):
